@@ -47,6 +47,8 @@ def strat_distance(tier):
         'layout': layout(), 'bs': st.integers(1, 8), 'metric': st.sampled_from(METRICS),
         'p': st.sampled_from([1.0, 1.5, 3.0]), 'data_seed': st.integers(0, 10 ** 6),
         'scale': st.sampled_from([1.0, 10.0, 0.1]),
+        # afterwards the same node (or the node of a model copy) is evaluated against a second observed data set of the same shape
+        'second_data': st.sampled_from([None, None, 'same-model', 'copy']),
     })
 
 
@@ -113,6 +115,29 @@ def run_distance(case):
         raise Violation('C12:distance-value', 'distance node gives %r but cdist on the column-stacked summaries gives %r; %s'
                         % (got.tolist(), ref.tolist(), ctx))
     labels = ['metric=' + name, 'bs=1' if bs == 1 else 'bs>1']
+    second = case.get('second_data')
+    if second:
+        # the SAME node (or the node of a copy of the model, which shares its operation) against a second observed data set of the
+        # same shape: the observed summaries are those of the model at the time of the evaluation
+        obs2 = rs.randn(1, W) * 3 * case['scale'] + 1.0
+        bs2 = 1 + (bs % 4)
+        sim2 = rs.randn(bs2, W) * 3 * case['scale']
+        with must_not_raise(P, 'Distance node after the observed data was replaced (%s); %s' % (second, ctx)):
+            m2 = m.copy() if second == 'copy' else m
+            m2.observed['S'] = obs2
+            got2 = np.asarray(m2['d'].generate(bs2, with_values={'S': sim2}))
+            back = np.asarray(m['d'].generate(bs, with_values={'S': simM})) if second == 'copy' else None
+        X2 = np.column_stack([fn(sim2) for fn in fns])
+        Y2 = np.concatenate([np.atleast_2d(fn(obs2)) for fn in fns], axis=1)
+        ref2 = my_metric(X2, Y2) if name == 'callable' else cdist(X2, Y2, metric=metric, **kw)[:, 0]
+        if got2.shape != (bs2,) or not np.allclose(got2, ref2, rtol=1e-12, atol=0, equal_nan=True):
+            raise Violation('C12:distance-value-after-new-observed-data',
+                            'after the observed data of the model%s was replaced the distance node gives %r but cdist against the stacked NEW observed summaries gives %r; %s'
+                            % (' copy' if second == 'copy' else '', got2.tolist(), ref2.tolist(), ctx))
+        if back is not None and not np.allclose(back, ref, rtol=1e-12, atol=0, equal_nan=True):
+            raise Violation('C12:distance-value-after-new-observed-data', 'after a COPY of the model got other observed data the original distance node gives %r, expected %r; %s'
+                            % (back.tolist(), ref.tolist(), ctx))
+        labels.append('second-observed-data=' + second)
     vec = any(w > 1 for w, _ in lay)
     mixed = any(i for _, i in lay) and not all(i for _, i in lay)
     if mixed:
@@ -230,7 +255,7 @@ CHECK = Check(
     P, 'exploration',
     rule=('distance: 1-4 summaries of widths 1-3 (width-1 summaries as 1-D arrays, optionally integer valued), batch sizes 1-8, 13 metric '
           'configurations (scipy names with and without p/w/V/VI, a callable), evaluated through node.generate(with_values={simulator: '
-          'matrix}) on a real model and compared with cdist on the column-stacked summaries. adaptive: 1-4 adaptation rounds of 2-80 '
+          'matrix}) on a real model and compared with cdist on the column-stacked summaries; optionally the same node (or the node of a model copy) is evaluated again after the observed data was replaced by a second set of the same shape. adaptive: 1-4 adaptation rounds of 2-80 '
           '(thorough 200) rows, two random partitions of each round into add_data calls (incl. single-row calls), scale vs population sd, '
           'newest/earlier nested distances after update_distance. Non-trivial = >=2 summaries with a vector summary, or a partition '
           'with >=3 parts.'),
